@@ -12,7 +12,13 @@ def run(ctx):
                        "position a also at b for every pair a<b (lists up to 20; boundary/random pairs above) and triples, signatures claiming the first / "
                        "second / both positions, alone and among other signers; wver: the same VAAs on the wire path (hand-encoded bytes -> Unmarshal -> "
                        "VerifySignatures), Spec = Valid on the signature records read off the bytes in wire order (reversed / rotated / swapped lists); "
-                       "ver-concurrent: verification results obtained while other goroutines hash, encode and verify (child process)")
+                       "ver-concurrent: verification results obtained while other goroutines hash, encode and verify (child process); signature ENCODINGS: the "
+                       "second encoding (r, N-s, v^1) of one / the first / the last / every second / a random subset / all signatures of a valid list "
+                       "(oracle-checked to recover to the same guardian), next to its original, re-indexed, swapped, over another body, of an outsider, "
+                       "half twins; guardian lists built FROM crafted (r, s, v), v in {0,1}, that the oracle recovers: s in {1, 2, 255, 256, 2^128, "
+                       "2^248-1, 2^255-1, 2^255, 2^255+1, N/2-1 .. N/2+2, N-2, N-1, random}, r genuine / 1..31 leading zero bytes / top bit set / "
+                       "just below N, alone, among genuine signers and all-crafted lists; r or s = 0, = N, > N, r off the curve against lists holding "
+                       "the zero address")
     ctx.cov["trusted_base"] += ["secp256k1 recovery and Keccak-256 are oracles (go-ethereum), supplied to the model as a finite table per case"]
     # the call site in the processor (anchor node/pkg/processor/observation.go): an inbound VAA is stored iff verification
     # against the node's CURRENT guardian list succeeds - clause stored-vaa-not-quorum-verifiable, and the model comparison on every
